@@ -27,6 +27,11 @@ theorem facts_workSheetReader_skeleton :
       ["f.Sheet.Load", "f.checked.Load", "ws.checkSheet", "ws.checkRow", "f.checked.Store", "f.Sheet.Store"] := by
   decide
 
+/-- copySheet loads the source, then the target (which marks an uncached target part as
+checked), then stores the copy in the cache: the order transcribed in `Impl.copySheet`. -/
+theorem facts_copySheet_skeleton :
+    Facts.C02.copySheetCalls = ["f.workSheetReader", "f.workSheetReader", "f.Sheet.Store"] := by decide
+
 /-- trimRow never drops or moves a row slot; a row is replaced by its trimmed form iff it
 keeps a cell or has an attribute; trimCell copies exactly the cells with a value. -/
 theorem facts_trim_discipline :
@@ -40,6 +45,7 @@ theorem facts_slot_guards :
     Facts.C02.fillColumnsGuard = "cellCount < col"
     ∧ Facts.C02.prepareSheetXMLGuard = "rowCount < row"
     ∧ Facts.C02.checkRowGuard = "colCount < lastCol"
+    ∧ Facts.C02.checkRowWidenGuard = "colNum > lastCol"
     ∧ Facts.C02.getCellLastRowGuard = "row > lastRowNum"
     ∧ Facts.C02.getCellRowMatch = "rowData.R != row"
     ∧ Facts.C02.getCellRefMatch = "cell != colData.R"
@@ -78,7 +84,7 @@ theorem saved_part_decodes (s : Sheet) (h : Wf s) :
   refine ⟨s', ?_, hw, ha⟩
   unfold decodePart
   simp only [Option.getD_some, Bool.false_eq_true, if_false]
-  rw [checkSheet_trim s h.1]
+  rw [checkSheet_trim s h.1 h.2.1]
   have : (⟨(trimRow s).rows⟩ : Sheet) = trimRow s := rfl
   simp only [this, e]
 
